@@ -1,8 +1,15 @@
 """C16 — subsampled coordinates are reconstituted by the stated interpolation.
 
 Streams (one case = one subsampled coordinate, optionally with bounds tie points)
-  C16.r1   one subsampled dimension, interpolation 'linear' or 'quadratic' (with/without w)
+  C16.r1   one subsampled dimension, interpolation 'linear' or 'quadratic' (with/without w; the
+           model receives w AS STORED - own dimension order, any subset of the dimensions - and
+           conforms / selects it itself)
   C16.r2   two subsampled dimensions, interpolation 'bi_linear'
+  C16.g1 / C16.g2   the same coordinates, observable = `x[index]` (SubsampledArray.__getitem__
+           with its first/last element shortcut, reached directly or through cfdm.Data)
+  C16.rd   a netCDF file written with netCDF4 and read with cfdm.read, observable = what the
+           reader hands to SubsampledArray (shape, tie point indices per position, parameter
+           dimensions, which coordinate variables are subsampled)
 Receivers (tag recv:*): the `cfdm.SubsampledArray` itself, `cfdm.Data` over it, an
 auxiliary coordinate construct with bounds, and a netCDF file hand-written with netCDF4
 and read back with `cfdm.read`.
@@ -22,6 +29,7 @@ import numpy as np
 
 from .. import fw
 from ..fw import Case, fmt_list
+from . import c16_geo as geo
 
 REQUIRED = [
     "C16_partition",
@@ -35,18 +43,50 @@ REQUIRED = [
     "C16_quadratic_formula",
     "C16_bounds_reconstitution",
     "C16_bounds_contiguous",
+    "C16_bilinear_bounds_reconstitution",
+    "C16_bilinear_bounds_corners",
+    "C16_bilinear_bounds_contiguous_0",
+    "C16_bilinear_bounds_contiguous_1",
+    "C16_getitem_1d",
+    "C16_getitem_1d_bounds",
+    "C16_getitem_2d",
+    "C16_subspace_1d",
+    "C16_conform_parameter",
+    "C16_parameter_row",
+    "C16_quadratic_stored_parameter",
+    "C16_parse_mapping_roundtrip",
+    "C16_coordinate_interpolation_roundtrip",
+    "C16_read_parameter_dimensions",
+    "C16_read_parameter_dimensions_nodup",
+    "C16_read_tie_point_indices",
+    "C16_read_shape",
+    "C16_read_dependent_tie_points",
+    "C16_qll_reconstitution",
+    "C16_qll_tie_exact",
+    "C16_bqll_reconstitution",
+    "C16_bqll_corners",
+    "C16_bqll_tie_exact",
 ]
-BUDGET = {"quick": 3200, "thorough": 40000}
+BUDGET = {"quick": 3600, "thorough": 40000}
 QUICK_JOBS = 8
 RULE = (
     "tie-point index vectors: 1-3 continuous areas x 2-4 tie points per area x gaps 2-6 (adjacent indices = "
     "area boundary), a few vectors with a single-tie-point area (model correspondence only); 1 subsampled "
-    "dimension (linear, quadratic with w per subarea spanning any subset of the other dimensions in any "
-    "order, quadratic without w) and 2 subsampled dimensions (bi_linear); 0-2 non-interpolated dimensions "
-    "of size 1-3 in any position; coordinates or bounds tie points observed; tie-point values integers/2^k; "
-    "receivers SubsampledArray / Data / coordinate construct / netCDF file; one subspace per case "
-    "(ints, slices, lists, bool, first/last-element index). non-trivial = at least two interpolation "
-    "subareas along some subsampled dimension; distinct = distinct protocol line + receiver + subspace"
+    "dimension (linear, quadratic with w stored in its own dimension order over any subset of the tie point "
+    "dimensions - with or without the interpolation subarea dimension, down to a scalar -, quadratic without "
+    "w) and 2 subsampled dimensions (bi_linear); 0-2 non-interpolated dimensions of size 1-3 in any "
+    "position; coordinates or bounds tie points observed; tie-point values integers/2^k; receivers "
+    "SubsampledArray / Data / coordinate construct / netCDF file; one subspace per case (ints, slices, lists, "
+    "bool, first/last-element index and near misses of it); stream g: the subspace itself is the compared "
+    "observable; stream rd: the reader's hand-over (shape, tie point index positions, parameter dimensions). "
+    "streams q1/q2: quadratic_latitude_longitude / bi_quadratic_latitude_longitude with latitude and "
+    "longitude tie points on a quarter degree grid, ce/ca terms each present or absent (integers/1024), "
+    "location_use_3d_cartesian flags per subarea and row (three flag encodings, either flag order), parameters "
+    "over any subset of the non-interpolated dimensions in any order, 0-1 non-interpolated dimensions, "
+    "receivers SubsampledArray / Data / netCDF file (longitude variable optionally with permuted dimensions), "
+    "copies (copy(), source=, to_memory()). "
+    "non-trivial = at least two interpolation subareas along some subsampled dimension; distinct = distinct "
+    "protocol line + receiver + subspace"
 )
 ASSUMPTIONS = [
     "IEEE floating point is not modelled: theorems are in exact rational arithmetic; the sampled check accepts "
@@ -56,11 +96,22 @@ ASSUMPTIONS = [
     "left masked by cfdm - outside the property's quantifier, covered by model correspondence only",
     "bounds tie points: the bounds tie point of the first tie point of a continuous area is the lower vertex of its "
     "cell, that of every other tie point the upper vertex (CF 8.3.9 as read from the CF test files of cfdm)",
-    "quadratic_latitude_longitude and bi_quadratic_latitude_longitude (trigonometric, not exact) are not covered",
-    "bounds over two subsampled dimensions: the assembled array is tied to the specification by correspondence and the "
-    "oracle only (theorems cover coordinates in 1-d and 2-d and bounds in 1-d)",
-    "subspacing of the reconstituted array is C03's subject; here one random subspace per case is compared with numpy "
-    "per-axis indexing of the oracle's array",
+    "the position of the subsampled dimension(s) among the tie point dimensions is handled by numpy inside cfdm and by "
+    "a transposition to canonical order in the harness (not in the Lean model); the Lean model of __getitem__ is per "
+    "combination of the non-interpolated dimensions, the driver applies the index to the rows",
+    "quadratic_latitude_longitude / bi_quadratic_latitude_longitude: the theorems hold for uninterpreted "
+    "trigonometric primitives (structure Geo) under the explicit hypothesis that the tie points survive the round "
+    "trip latitude/longitude -> vector -> latitude/longitude; nothing is exact, so both ties to the code are SAMPLED "
+    "tolerance checks: the oracle is an independent float64 implementation of the Appendix J text (|difference| <= "
+    "2e-9 degrees, tie points included), the model line is the Lean definitions executed with an 80-bit fixed point "
+    "instance of Geo in the driver (glue, not proved; |difference| <= 4e-9 degrees); latitude tie points are kept "
+    "within +-85 degrees and longitudes within +-175 degrees (outside, e.g. a 'latitude' of 92 degrees, the round trip "
+    "fails, cfdm's array holds 88 where first/last_element() return the tie point 92: seen once, generator "
+    "corrected); bounds tie points of these two methods and the relative order of the two subsampled dimensions "
+    "are not generated",
+    "the reader model starts from whitespace-separated tokens (the regular expression of _parse_x is restated on "
+    "classified tokens); group/flattener name mapping, external variables and non-standardised interpolation are "
+    "outside the model",
 ]
 
 _cfdm = None
@@ -235,19 +286,92 @@ def gen_long(rng, gap):
     return p
 
 
+def gen_w(rng, extra, t, nosub=None):
+    """Interpolation parameter w as stored: it spans any subset of the non-interpolated dimensions and (unless
+    `nosub`) the interpolation subarea dimension, in any dimension order."""
+    span = [e for e in range(len(extra)) if rng.random() < 0.5]
+    if nosub is None:
+        nosub = rng.random() < 0.03
+    wshape = [extra[e] for e in span] + ([] if nosub else [n_subareas(t)])
+    order = list(range(len(wshape)))
+    rng.shuffle(order)
+    w = dict(span=span, values=rand_ints(rng, wshape, -12, 12).tolist(), order=order)
+    if nosub:
+        w["nosub"] = True
+    return w
+
+
+def gen_ix_g(rng, shape, data_like):
+    """An index of slices and integer lists for the g streams (what reaches SubsampledArray.__getitem__),
+    with the first/last element index and near misses of it."""
+    r = rng.random()
+    if r < 0.10:
+        return "first"
+    if r < 0.22:
+        return "last"
+    if r < 0.34:
+        # near miss: every element selects the first (last) position, but not all as slice(0,1,1) / slice(-1,None,1)
+        last = rng.random() < 0.5
+        ix = []
+        for n in shape:
+            k = rng.choice("eeeenlp")
+            if k == "e":
+                ix.append(["s", -1, None, 1] if last else ["s", 0, 1, 1])
+            elif k == "n":
+                ix.append(["s", n - 1, n, 1] if last else ["s", 0, 1, None])
+            elif k == "l":
+                ix.append(["l", [-1]] if last else ["l", [0]])
+            else:
+                ix.append(["s", n - 1, None, None] if last else ["s", None, 1, 1])
+        return ix
+    ix = []
+    for n in shape:
+        k = rng.choice("sssll:")
+        if k == "s":
+            step = rng.choice([1, 1, 2, 3, -1, -2, None])
+            if step is None or step > 0:
+                a = rng.choice([None, rng.randint(0, n - 1), rng.randint(-n, -1)])
+                b = rng.choice([None, rng.randint(1, n + 1), rng.randint(-n, -1)])
+                ix.append(["s", a, b, step])
+            else:
+                a = rng.choice([None, rng.randint(0, n - 1), rng.randint(-n, -1)])
+                b = rng.choice([None, None, rng.randint(0, n - 1), rng.randint(-n - 1, -1)])
+                ix.append(["s", a, b, step])
+        elif k == "l":
+            m = rng.randint(1, min(4, n))
+            l = sorted(rng.sample(range(n), m))
+            if rng.random() < 0.4:
+                l = l[::-1]
+            if rng.random() < 0.3:
+                l = [v - n for v in l]
+            ix.append(["l", l])
+        else:
+            ix.append(["s", None, None, None])
+    return ix
+
+
 def gen(rng, tier, n):
     # every subarea size once (quick: up to 256 intervals, thorough: up to 1024)
     for gap in range(7, 257 if tier == "quick" else 1025):
         yield mk(gen_long(rng, gap))
     for _ in range(n):
+        if rng.random() < 0.10:
+            yield mk_q(gen_q(rng))
+            continue
         two = rng.random() < 0.4
         singleton = rng.random() < 0.04
         extra = [rng.randint(1, 3) for _ in range(rng.choice([0, 0, 1, 1, 2]))]
         has_bounds = rng.random() < 0.55
         observe = "bounds" if has_bounds and rng.random() < 0.6 else "coord"
-        recv = rng.choices(["array", "data", "coord", "file"], [4, 3, 2, 2])[0]
+        kind = rng.choices(["r", "g", "rd"], [55, 35, 10])[0]
+        if kind == "g":
+            recv = rng.choice(["array", "array", "data"])
+        elif kind == "rd":
+            recv = "file"
+        else:
+            recv = rng.choices(["array", "data", "coord", "file"], [4, 3, 2, 2])[0]
         den = rng.choice([1, 1, 2, 4, 8])
-        p = dict(extra=extra, den=den, has_bounds=has_bounds, observe=observe, recv=recv,
+        p = dict(extra=extra, den=den, has_bounds=has_bounds, observe=observe, recv=recv, kind=kind,
                  tp_dtype=rng.choice(["f8", "f8", "i4", "f4", "i1", "u1", "i2"]) if den == 1 else "f8",
                  precision=rng.choice(["64", "64", "32", None]))
         lo, hi = {"i1": (-120, 120), "u1": (0, 250), "i2": (-30000, 30000)}.get(p["tp_dtype"], (-40, 40))
@@ -262,7 +386,6 @@ def gen(rng, tier, n):
                      tp=rand_ints(rng, extra + [len(t0), len(t1)], lo, hi).tolist())
             if has_bounds:
                 p["btp"] = rand_ints(rng, extra + [len(t0), len(t1)], lo, hi).tolist()
-            ushape = ushape_of(p)
         else:
             t, nn = gen_t(rng, singleton)
             m = rng.choice(["linear", "linear", "quadratic", "quadratic", "quadratic"])
@@ -272,16 +395,19 @@ def gen(rng, tier, n):
             if has_bounds:
                 p["btp"] = rand_ints(rng, extra + [len(t)], lo, hi).tolist()
             if m == "quadratic" and rng.random() < 0.85:
-                # w spans the subarea dimension and any subset of the other dimensions, in any order
-                span = [e for e in range(len(extra)) if rng.random() < 0.5]
-                wshape = [extra[e] for e in span] + [n_subareas(t)]
-                order = list(range(len(wshape)))
-                rng.shuffle(order)
-                p["w"] = dict(span=span, values=rand_ints(rng, wshape, -12, 12).tolist(), order=order)
+                p["w"] = gen_w(rng, extra, t)
             else:
                 p["w"] = None
         obs_shape = ushape_of(p) + ([2 * len(p["t"])] if observe == "bounds" else [])
-        p["ix"] = gen_ix(rng, obs_shape)
+        if kind == "g":
+            p["ix"] = gen_ix_g(rng, obs_shape, recv == "data")
+        else:
+            p["ix"] = gen_ix(rng, obs_shape)
+        if kind == "rd":
+            p["second_coord"] = rng.random() < 0.4
+            p["data_reversed"] = rng.random() < 0.5
+        if recv in ("array", "data") and rng.random() < 0.15:
+            p["via"] = rng.choice(["copy", "source", "memory"])
         yield mk(p)
 
 
@@ -300,6 +426,22 @@ def tp_shape_of(p):
     return shape
 
 
+def w_tp_dims(p):
+    """Tie point array positions of the dimensions of w's `values` (before the stored permutation)."""
+    w = p["w"]
+    others = [d for d in range(len(p["extra"]) + 1) if d != p["pos"][0]]
+    return [others[e] for e in w["span"]] + ([] if w.get("nosub") else [p["pos"][0]])
+
+
+def w_stored(p):
+    """(integer array as stored, parameter_dimensions) of w."""
+    w = p["w"]
+    vals = np.array(w["values"], dtype=int)
+    tp_dims = w_tp_dims(p)
+    order = w["order"]
+    return np.transpose(vals, order), tuple(tp_dims[o] for o in order)
+
+
 def w_full(p):
     """w broadcast to canonical (extra..., subarea) integers, or None."""
     w = p.get("w")
@@ -307,15 +449,82 @@ def w_full(p):
         return None
     vals = np.array(w["values"], dtype=int)
     extra = p["extra"]
-    full = np.empty(list(extra) + [vals.shape[-1]], dtype=int)
+    nsub = n_subareas(p["t"][0])
+    full = np.empty(list(extra) + [nsub], dtype=int)
     for idx in itertools.product(*[range(e) for e in extra]):
         sub = tuple(idx[e] for e in w["span"])
-        full[idx] = vals[sub]
+        full[idx] = vals[sub]  # (nsub,) or, when w does not span the subarea dimension, one value for all
     return full
+
+
+def _sel_str(t):
+    if t[0] == "s":
+        return "s:" + ":".join("_" if v is None else str(v) for v in t[1:4])
+    return "l:" + ",".join(str(v) for v in t[1])
+
+
+def canon_sels(p):
+    """The index that reaches SubsampledArray.__getitem__, per canonical dimension (non-interpolated...,
+    subsampled..., [bounds]); for the Data receiver as parsed by Data._parse_indices."""
+    b = p["observe"] == "bounds"
+    nsub = len(p["t"])
+    shape = ushape_of(p) + ([2 * nsub] if b else [])
+    ix = p["ix"]
+    if ix == "first":
+        ix = [["s", 0, 1, 1] for _ in shape]
+    elif ix == "last":
+        ix = [["s", -1, None, 1] for _ in shape]
+    if p["recv"] == "data":
+        parsed = []
+        for t, n in zip(ix, shape):
+            if t[0] == "l" and len(t[1]) == 1:
+                j = t[1][0] % n
+                parsed.append(["s", j, j + 1, 1])
+            else:
+                parsed.append(t)
+        ix = parsed
+    nd = len(p["extra"]) + nsub
+    others = [d for d in range(nd) if d not in p["pos"]]
+    order = others + list(p["pos"]) + ([nd] if b else [])
+    return [ix[d] for d in order]
+
+
+def tp_dim_names(p):
+    nd = len(p["extra"]) + len(p["t"])
+    others = [d for d in range(nd) if d not in p["pos"]]
+    names = [None] * nd
+    for e, d in enumerate(others):
+        names[d] = f"x{e}"
+    for k, d in enumerate(p["pos"]):
+        names[d] = f"tp{k}"
+    return names
+
+
+def rd_line(p):
+    names = tp_dim_names(p)
+    tpm, sizes = [], []
+    for e, size in enumerate(p["extra"]):
+        sizes.append(f"x{e}:{size}")
+    for k, (t, n) in enumerate(zip(p["t"], p["n"])):
+        sizes += [f"tp{k}:{len(t)}", f"u{k}:{n}"]
+        tpm += [f"u{k}:", f"idx{k}", f"tp{k}"]
+        if p.get("w"):
+            tpm.append(f"sa{k}")
+            sizes.append(f"sa{k}:{n_subareas(t)}")
+    pv, ip = [], []
+    if p.get("w"):
+        w = p["w"]
+        wn = [f"x{e}" for e in w["span"]] + ([] if w.get("nosub") else ["sa0"])
+        pv.append("w=wpar=" + ",".join(wn[o] for o in w["order"]))
+        ip = ["w:", "wpar"]
+    ci = ["c16:"] + (["c16b:"] if p.get("second_coord") else []) + ["interp"]
+    return (f"C16.rd dims={fmt_list(names)} tpm={fmt_list(tpm)} sizes={fmt_list(sizes)} pv=[{';'.join(pv)}] "
+            f"b={int(p['observe'] == 'bounds')} ci={fmt_list(ci)} ip={fmt_list(ip)}")
 
 
 def mk(p):
     p = dict(p)
+    kind = p.get("kind", "r")
     nsub = len(p["t"])
     b = p["observe"] == "bounds"
     src = np.array(p["btp"] if b else p["tp"], dtype=int)
@@ -323,20 +532,29 @@ def mk(p):
     R = int(np.prod(extra)) if extra else 1
     rows = src.reshape(R, -1)
     rows_s = "[" + ";".join(",".join(str(v) for v in r) for r in rows.tolist()) + "]"
+    g_s = f" xs={fmt_list(extra)} ix=[{';'.join(_sel_str(t) for t in canon_sels(p))}]" if kind == "g" else ""
     if nsub == 1:
         t = p["t"][0]
         power = 2 if p["m"] == "quadratic" and p.get("w") else 1
         L = scale_for(t, b, power) * p["den"]
-        wf_ = w_full(p)
-        w_s = "-" if wf_ is None else "[" + ";".join(",".join(str(v) for v in r) for r in wf_.reshape(R, -1).tolist()) + "]"
-        line = (f"C16.r1 m={p['m']} b={int(b)} n={p['n'][0]} t={fmt_list(t)} den={p['den']} scale={L} "
-                f"tp={rows_s} w={w_s}")
-        stream = "C16.r1"
+        if p.get("w"):
+            stored, dims = w_stored(p)
+            w_s = (f"wp={fmt_list(stored.flatten().tolist())} ws={fmt_list(stored.shape)} wd={fmt_list(dims)} "
+                   f"xs={fmt_list(extra)} pos={p['pos'][0]}")
+            if kind == "g":
+                g_s = g_s.replace(f" xs={fmt_list(extra)}", "", 1)
+        else:
+            w_s = "w=-"
+        line = (f"C16.{kind if kind == 'g' else 'r'}1 m={p['m']} b={int(b)} n={p['n'][0]} t={fmt_list(t)} "
+                f"den={p['den']} scale={L} tp={rows_s} {w_s}{g_s}")
+        stream = "C16.g1" if kind == "g" else "C16.r1"
     else:
         L = scale_for(p["t"][0], b, 1) * scale_for(p["t"][1], b, 1) * p["den"]
-        line = (f"C16.r2 b={int(b)} n0={p['n'][0]} n1={p['n'][1]} t0={fmt_list(p['t'][0])} "
-                f"t1={fmt_list(p['t'][1])} den={p['den']} scale={L} tp={rows_s}")
-        stream = "C16.r2"
+        line = (f"C16.{kind if kind == 'g' else 'r'}2 b={int(b)} n0={p['n'][0]} n1={p['n'][1]} "
+                f"t0={fmt_list(p['t'][0])} t1={fmt_list(p['t'][1])} den={p['den']} scale={L} tp={rows_s}{g_s}")
+        stream = "C16.g2" if kind == "g" else "C16.r2"
+    if kind == "rd":
+        line, stream = rd_line(p), "C16.rd"
     p["scale"] = L
     ok = all(wf(t, n) for t, n in zip(p["t"], p["n"]))
     tags = [f"recv:{p['recv']}", f"m:{p['m']}", f"observe:{p['observe']}", f"extra:{len(extra)}",
@@ -344,15 +562,238 @@ def mk(p):
             "areas:" + "x".join(str(1 + sum(1 for a, c in zip(t, t[1:]) if c - a == 1)) for t in p["t"]),
             "ix:" + (p["ix"] if isinstance(p["ix"], str) else "general")]
     if p["m"] == "quadratic":
-        tags.append("quad:" + ("w" if p.get("w") else "no-w"))
+        w = p.get("w")
+        if not w:
+            tags.append("quad:no-w")
+        else:
+            _, dims = w_stored(p)
+            tags.append("quad:w")
+            tags.append("w-dims:" + ("none" if not dims else "in-order" if list(dims) == sorted(dims) else "permuted")
+                        + ("" if len(dims) == len(extra) + 1 else "+broadcast"))
+            if w.get("nosub"):
+                tags.append("w:no-subarea-dimension")
+    if kind == "g" and isinstance(p["ix"], list):
+        sels = canon_sels(p)
+        if all(t[:4] == ["s", 0, 1, 1] for t in sels) or all(t[:4] == ["s", -1, None, 1] for t in sels):
+            tags.append("ix:parsed-to-shortcut")
     if not ok:
         tags.append("nonwf:single-tie-point-area")
+    if p.get("via"):
+        tags.append("via:" + p["via"])
     nontrivial = any(n_subareas(t) >= 2 for t in p["t"])
-    key = line + "|" + p["recv"] + "|" + str(p["ix"]) + "|" + str(p["has_bounds"])
+    key = line + "|" + p["recv"] + "|" + str(p.get("via")) + "|" + str(p["ix"]) + "|" + str(p["has_bounds"])
     return Case(stream, p, line, key=key, nontrivial=nontrivial, tags=tags)
 
 
+# ---------------------------------------------------------------- q streams (latitude / longitude methods)
+def gen_q(rng):
+    """A quadratic_latitude_longitude / bi_quadratic_latitude_longitude case, steered so that the inputs of
+    the open findings stay a small, still present, fraction."""
+    p = geo.gen_q(rng)
+    nd = len(p["extra"]) + len(p["t"])
+    if rng.random() < 0.88:
+        # flags stored over all the tie point dimensions, in order (the others: finding subarea-flags-not-conformed)
+        ne = len(p["extra"])
+        q = p["params"]["flags"]
+        full = geo.param_full(p, "flags")
+        # canonical (extra..., subsampled...) -> tie point dimension order
+        src = list(range(ne, nd))
+        stored = np.moveaxis(full, src, p["pos"])
+        # express "stored in tie point order" through span/order of the canonical values
+        q["span"] = list(range(ne))
+        q["values"] = full.tolist()
+        others = [d for d in range(nd) if d not in p["pos"]]
+        tp_dims = others + list(p["pos"])
+        q["order"] = [tp_dims.index(d) for d in range(nd)]
+        assert np.array_equal(np.transpose(full, q["order"]), stored)
+    if p["m"] == "quadratic_latitude_longitude" and rng.random() < 0.85:
+        # all Cartesian (a subarea interpolated in latitude-longitude coordinates: finding
+        # quadratic-latitude-longitude-noncartesian-typeerror)
+        q = p["params"]["flags"]
+        q["values"] = (np.array(q["values"], dtype=int) * 0 + 1).tolist()
+    if p["tp_dtype"] == "f4":
+        if rng.random() < 0.8:
+            p["tp_dtype"] = "f8"
+        else:
+            p["precision"] = "64"
+    ushape = geo.ushape_of(p)
+    p["ix"] = gen_ix(rng, ushape)
+    if rng.random() < 0.15:
+        p["via"] = rng.choice(["copy", "source", "memory"])
+    if rng.random() < 0.12:
+        # through a dataset: the reader builds the two coordinates and gives each the other's tie points
+        p["recv"] = "file"
+        names = list(range(nd))
+        if rng.random() < 0.6:
+            # the longitude variable stores its dimensions in another order (the subsampled ones keep theirs)
+            for _ in range(20):
+                perm = names[:]
+                rng.shuffle(perm)
+                if [perm.index(d) for d in p["pos"]] == sorted(perm.index(d) for d in p["pos"]) and perm != names:
+                    p["lon_perm"] = perm
+                    break
+    return p
+
+
+def _rows(a, R):
+    return "[" + ";".join(",".join(str(int(v)) for v in r) for r in np.asarray(a).reshape(R, -1).tolist()) + "]"
+
+
+def q_line(p):
+    """The protocol line of a q case: tie points and parameters broadcast to canonical rows (one per
+    combination of the non-interpolated dimensions), integers over lden / pden."""
+    two = len(p["t"]) == 2
+    extra = p["extra"]
+    R = int(np.prod(extra)) if extra else 1
+    lat, lon = np.array(p["lat"], dtype=int), np.array(p["lon"], dtype=int)
+    mine, other = (lat, lon) if p["which"] == "latitude" else (lon, lat)
+    terms = []
+    for term in geo.term_kinds(p["m"]):
+        full = geo.param_full(p, term)
+        name = "fl" if term == "flags" else term
+        terms.append(f"{name}=" + ("-" if full is None else _rows(full, R)))
+    head = f"lat={int(p['which'] == 'latitude')} "
+    if two:
+        head += (f"n0={p['n'][0]} n1={p['n'][1]} t0={fmt_list(p['t'][0])} t1={fmt_list(p['t'][1])}")
+    else:
+        head += f"n={p['n'][0]} t={fmt_list(p['t'][0])}"
+    return (f"C16.q{2 if two else 1} {head} lden={geo.LDEN} pden={geo.PDEN} tp={_rows(mine, R)} "
+            f"tpo={_rows(other, R)} " + " ".join(terms))
+
+
+def mk_q(p):
+    p = dict(p)
+    two = len(p["t"]) == 2
+    flags = geo.param_full(p, "flags")
+    tags = [f"recv:{p['recv']}", f"m:{p['m']}", f"observe:{p['which']}", f"extra:{len(p['extra'])}",
+            "pos:" + ",".join(map(str, p["pos"])),
+            "flags:" + ("cartesian" if flags.all() else "lat-lon" if not flags.any() else "mixed"),
+            "terms:" + ("none" if len(p["params"]) == 1 else "all" if len(p["params"]) == (7 if two else 3) else "some"),
+            "tp:" + p["tp_dtype"], "flag-style:" + p["flag_style"]]
+    if flags_unconformed(p):
+        tags.append("flags:own-dimension-order")
+    if p.get("lon_perm"):
+        tags.append("lon-dims:" + ("cyclic" if lon_perm_cyclic(p) else "transposed"))
+    if p.get("via"):
+        tags.append("via:" + p["via"])
+    nontrivial = any(n_subareas(t) >= 2 for t in p["t"])
+    return Case("C16.q2" if two else "C16.q1", p, q_line(p), nontrivial=nontrivial, tags=tags)
+
+
+def flags_unconformed(p):
+    nd = len(p["extra"]) + len(p["t"])
+    return list(geo.param_stored(p, "flags")[1]) != list(range(nd))
+
+
+def lon_perm_cyclic(p):
+    """The longitude variable's dimension order is a permutation that is not its own inverse."""
+    perm = p.get("lon_perm")
+    return bool(perm) and [perm[i] for i in perm] != list(range(len(perm)))
+
+
+def observe_q(p):
+    C = cfdm()
+    if p["recv"] == "file":
+        d = tempfile.mkdtemp(prefix="verif_c16q_")
+        try:
+            path = os.path.join(d, "q.nc")
+            geo.write_file(p, path)
+            got = geo.read_file(C, p, path)
+            obs = {}
+            for name, g in got.items():
+                obs[name] = dict(shape=tuple(g["array"].shape), full=g["array"],
+                                 dep={k: [int(d) for d in v] for k, v in g["dep"].items()})
+            return obs
+        finally:
+            shutil.rmtree(d, ignore_errors=True)
+    arrs = geo.build(C, p)
+    obs = {}
+    for name, a in arrs.items():
+        a = via(a, p)
+        x = C.Data(a) if p["recv"] == "data" else a
+        rec = dict(shape=tuple(x.shape))
+        rec["full"] = np.ma.asanyarray(x.array if p["recv"] == "data" else x[...])
+        if name == p["which"]:
+            ix = py_ix(p["ix"], len(rec["shape"]))
+            rec["sub"] = _try(lambda: np.ma.asanyarray(x[ix].array if p["recv"] == "data" else x[ix]))
+        obs[name] = rec
+    return obs
+
+
+def oracle_q(c):
+    p = c.payload
+    if str(c.impl_out).startswith("raised"):
+        return "implementation raised: " + c.impl_out + " " + str(c.extra)[-300:]
+    obs = c.extra
+    want = geo.expected(p)
+    ushape = tuple(geo.ushape_of(p))
+    for name in ("latitude", "longitude"):
+        rec = obs[name]
+        if tuple(rec["shape"]) != ushape:
+            return f"{name}: .shape {rec['shape']} is not the target shape {ushape}"
+        w = geo._actual(want[name], p)
+        r = cmp_float(rec["full"], w, name)
+        if r:
+            return r
+        if np.ma.getdata(rec["full"]).dtype != np.dtype("f8"):
+            return f"{name}: dtype {np.ma.getdata(rec['full']).dtype}"
+        if "dep" in rec:
+            # the dependent tie points as handed over by the reader: for every dimension of the dependent
+            # array, its position in this coordinate's own tie point array
+            lat_names = geo.dim_names(p)
+            perm = p.get("lon_perm") or list(range(len(lat_names)))
+            lon_names = [lat_names[i] for i in perm]
+            own, other, oname = ((lat_names, lon_names, "longitude") if name == "latitude"
+                                 else (lon_names, lat_names, "latitude"))
+            want_dep = {oname: [own.index(n) for n in other]}
+            if rec["dep"] != want_dep:
+                return f"{name}: dependent tie point dimensions {rec['dep']}, the dataset says {want_dep}"
+        if "sub" in rec:
+            pos, drop = positions(p["ix"], list(ushape))
+            if p["recv"] != "array":
+                drop = []
+            r = cmp_float(rec["sub"], take(w, pos, drop), f"subspace {name}")
+            if r:
+                return r
+    return None
+
+
+def cmp_float(got, want, what):
+    """Sampled tolerance check (trigonometric methods): |got - want| <= geo.TOL degrees."""
+    if isinstance(got, Raised):
+        return f"{what}: raised {got.enum} {got.text}"
+    got = np.ma.asanyarray(got)
+    if tuple(got.shape) != tuple(want.shape):
+        return f"{what}: shape {tuple(got.shape)} != {tuple(want.shape)}"
+    inside = ~np.isnan(want)
+    if (np.ma.getmaskarray(got) & inside).any():
+        return f"{what}: {int((np.ma.getmaskarray(got) & inside).sum())} masked element(s)"
+    g = np.ma.getdata(got).astype(float)
+    bad = inside & ~(np.abs(np.where(inside, g, 0.0) - np.where(inside, want, 0.0)) <= geo.TOL)
+    if bad.any():
+        idx = tuple(int(i) for i in np.argwhere(bad)[0])
+        return f"{what}: element {idx} is {g[idx]!r}, Appendix J (float64, sampled tolerance {geo.TOL}) gives {want[idx]!r}"
+    return None
+
+
+def classify_q(c):
+    p = c.payload
+    f = str(c.oracle_fail or "")
+    if p["recv"] == "file" and lon_perm_cyclic(p):
+        return "dependent-tie-point-dimensions-inverted"
+    if flags_unconformed(p) or (p["recv"] == "file" and p.get("lon_perm")):
+        # (for a longitude variable with permuted dimensions the flags are permuted relative to it)
+        return "subarea-flags-not-conformed"
+    if p["m"] == "quadratic_latitude_longitude" and not geo.param_full(p, "flags").all() and "TypeError" in f:
+        return "quadratic-latitude-longitude-noncartesian-typeerror"
+    if p["tp_dtype"] == "f4" and ": element " in f:
+        return "float32-tie-points-interpolated-in-single-precision"
+    return None
+
+
 def from_payload(stream, payload):
+    if payload.get("kind") == "q":
+        return mk_q(payload)
     return mk(payload)
 
 
@@ -384,19 +825,9 @@ def build_arrays(p):
     if p["precision"]:
         kwargs["computational_precision"] = p["precision"]
     if p.get("w"):
-        w = p["w"]
-        vals = np.array(w["values"], dtype=float) / den
-        # dimensions of `vals`: spanned extra dims (canonical order) then the subarea dim;
-        # as positions in the tie point array:
-        tp_dims = []
-        others = [d for d in range(len(p["extra"]) + 1) if d != p["pos"][0]]
-        for e in w["span"]:
-            tp_dims.append(others[e])
-        tp_dims.append(p["pos"][0])
-        order = w["order"]
-        vals = np.transpose(vals, order)
-        kwargs["parameters"] = {"w": C.InterpolationParameter(data=C.Data(vals))}
-        kwargs["parameter_dimensions"] = {"w": tuple(tp_dims[o] for o in order)}
+        stored, dims = w_stored(p)
+        kwargs["parameters"] = {"w": C.InterpolationParameter(data=C.Data(stored.astype(float) / den))}
+        kwargs["parameter_dimensions"] = {"w": dims}
     ushape = ushape_of(p)
     out = {}
     tp = _actual(np.array(p["tp"], dtype=int), p)
@@ -451,19 +882,23 @@ def write_file(p, path):
     iv.tie_point_mapping = " ".join(mapping)
     if p.get("w"):
         w = p["w"]
-        vals = np.array(w["values"], dtype=float) / den
-        names = [f"x{e}" for e in w["span"]] + ["sa0"]
-        order = w["order"]
-        wv = ds.createVariable("wpar", "f8", tuple(names[o] for o in order))
-        wv[...] = np.transpose(vals, order)
+        stored, _ = w_stored(p)
+        names = [f"x{e}" for e in w["span"]] + ([] if w.get("nosub") else ["sa0"])
+        wv = ds.createVariable("wpar", "f8", tuple(names[o] for o in w["order"]))
+        wv[...] = stored.astype(float) / den
         iv.interpolation_parameters = "w: wpar"
+    if p.get("second_coord"):
+        c2 = ds.createVariable("c16b", dt, tuple(tp_dims))
+        c2.long_name = "c16coord2"
+        c2.units = "m"
+        c2[...] = _actual(np.array(p["tp"], dtype=int), p) / den + 1
     # a data variable spanning the interpolated and the other dimensions, in another order
     ddims = list(u_dims)
     if p.get("data_reversed", True):
         ddims = ddims[::-1]
     dv = ds.createVariable("q", "f4", tuple(ddims))
     dv.long_name = "q"
-    dv.coordinate_interpolation = "c16: interp"
+    dv.coordinate_interpolation = "c16: c16b: interp" if p.get("second_coord") else "c16: interp"
     dv[...] = np.zeros([len(ds.dimensions[x]) for x in ddims], dtype="f4")
     ds.close()
 
@@ -483,6 +918,18 @@ def _try(f):
         raise
     except Exception as e:
         return Raised(e)
+
+
+def via(a, p):
+    """The array itself, or a copy of it made one of the ways cfdm makes them."""
+    how = p.get("via")
+    if how == "copy":
+        return a.copy()
+    if how == "source":
+        return type(a)(source=a, copy=True)
+    if how == "memory":
+        return a.to_memory()
+    return a
 
 
 def observe(p):
@@ -509,7 +956,7 @@ def _observe(p, path):
     if recv in ("array", "data"):
         arrs = build_arrays(p)
         for name in which:
-            a = arrs[name]
+            a = via(arrs[name], p)
             if recv == "array":
                 rec = dict(shape=tuple(a.shape), full=np.ma.asanyarray(a[...]))
                 if name == target:
@@ -542,6 +989,8 @@ def _observe(p, path):
             obs["_tpi"] = sorted((int(k), np.asarray(v.array).tolist()) for k, v in tpi.items())
         except Exception as e:
             obs["_tpi"] = "not subsampled: " + repr(e)[:100]
+        if p.get("kind") == "rd":
+            obs["_rd"] = _try(lambda: handover(fs[0], c, target))
     obs["coord"] = dict(shape=tuple(c.shape), full=np.ma.asanyarray(c.array))
     if p["has_bounds"]:
         if not c.has_bounds():
@@ -561,15 +1010,20 @@ def _observe(p, path):
     return obs
 
 
-def canon_line(full, p, bounds):
-    """shape=[R,…] data=[…] of the canonically ordered array, values scaled to integers."""
-    L = p["scale"]
-    a = np.ma.asanyarray(_canon(full, p))
-    nsub = len(p["t"])
-    extra = p["extra"]
-    R = int(np.prod(extra)) if extra else 1
-    shape = [R] + list(p["n"]) + ([2 * nsub] if bounds else [])
-    a = a.reshape(shape)
+def handover(f, c, target):
+    """What the reader handed to SubsampledArray, read back through the public accessors."""
+    src = (c.bounds if target == "bounds" else c).data.source()
+    shape = [int(n) for n in src.shape]
+    tpi = sorted((int(k), v.nc_get_variable()) for k, v in src.get_tie_point_indices().items())
+    pd = sorted((term, [int(d) for d in dims]) for term, dims in src.get_parameter_dimensions().items())
+    subsampled = sorted(
+        x.nc_get_variable() for x in f.coordinates(todict=True).values()
+        if x.has_data() and x.data.get_compression_type() == "subsampled"
+    )
+    return dict(shape=shape, tpi=tpi, pd=pd, ci=subsampled, name=src.get_interpolation_name(None))
+
+
+def _scaled(a, L):
     mask = np.ma.getmaskarray(a).flatten()
     vals = np.ma.getdata(a).astype(float).flatten()
     out = []
@@ -580,18 +1034,96 @@ def canon_line(full, p, bounds):
         y = v * L
         r = round(y)
         out.append(str(int(r)) if abs(y - r) <= 1e-5 else "~" + repr(float(v)))
-    return f"shape={fmt_list(shape)} data=[{','.join(out)}]"
+    return out
+
+
+def canon_line(full, p, bounds):
+    """shape=[R,…] data=[…] of the canonically ordered array, values scaled to integers."""
+    a = np.ma.asanyarray(_canon(full, p))
+    nsub = len(p["t"])
+    extra = p["extra"]
+    R = int(np.prod(extra)) if extra else 1
+    shape = [R] + list(p["n"]) + ([2 * nsub] if bounds else [])
+    a = a.reshape(shape)
+    return f"shape={fmt_list(shape)} data=[{','.join(_scaled(a, p['scale']))}]"
+
+
+def canon_sub_line(sub, p):
+    """The subspace in canonical dimension order (no dimension is dropped in the g streams)."""
+    if isinstance(sub, Raised):
+        return "raised:" + sub.enum
+    a = np.ma.asanyarray(sub)
+    want_ndim = len(p["extra"]) + len(p["t"]) + (1 if p["observe"] == "bounds" else 0)
+    if a.ndim != want_ndim:
+        return f"shape={fmt_list(a.shape)} rank-changed"
+    a = np.ma.asanyarray(_canon(a, p))
+    return f"shape={fmt_list(a.shape)} data=[{','.join(_scaled(a, p['scale']))}]"
+
+
+def rd_obs_line(h):
+    if isinstance(h, Raised):
+        return "raised:" + h.enum
+    return (f"shape={fmt_list(h['shape'])} tpi=[{';'.join(f'{i}:{v}' for i, v in h['tpi'])}] "
+            f"pd=[{';'.join(t + ':' + ','.join(map(str, d)) for t, d in h['pd'])}] "
+            f"ci=[interp:{','.join(h['ci'])}]")
 
 
 def impl(c):
     p = c.payload
+    if p.get("kind") == "q":
+        c.extra = observe_q(p)
+        full = np.ma.asanyarray(geo.canon(c.extra[p["which"]]["full"], p))
+        extra = p["extra"]
+        R = int(np.prod(extra)) if extra else 1
+        shape = [R] + list(p["n"])
+        a = full.reshape(shape)
+        vals = ["--" if m else str(int(math.floor(float(v) * 1e9 + 0.5)))
+                for v, m in zip(np.ma.getdata(a).flatten(), np.ma.getmaskarray(a).flatten())]
+        return f"shape={fmt_list(shape)} data=[{','.join(vals)}]"
     obs = observe(p)
     c.extra = obs
     target = p["observe"]
+    kind = p.get("kind", "r")
+    if kind == "g":
+        return canon_sub_line(obs[target]["sub"], p)
+    if kind == "rd":
+        return rd_obs_line(obs["_rd"])
     return canon_line(obs[target]["full"], p, target == "bounds")
 
 
+def _rd_norm(line):
+    """The order of the coordinate variable names of one interpolation variable is not an observable."""
+    head, _, ci = str(line).partition(" ci=[")
+    groups = []
+    for g in ci.rstrip("]").split(";"):
+        k, _, names = g.partition(":")
+        groups.append(k + ":" + ",".join(sorted(x for x in names.split(",") if x)))
+    return head + " ci=[" + ";".join(sorted(groups)) + "]"
+
+
+def _q_close(a, b, tol=4):
+    """q streams: values are nano-degrees; sampled tolerance of 4e-9 degrees (the implementation is IEEE
+    double, the model driver an 80-bit fixed point evaluation of the same formulas)."""
+    ha, _, da = str(a).partition(" data=[")
+    hb, _, db = str(b).partition(" data=[")
+    if ha != hb or not da or not db:
+        return False
+    xa, xb = da.rstrip("]").split(","), db.rstrip("]").split(",")
+    if len(xa) != len(xb):
+        return False
+    for u, v in zip(xa, xb):
+        if (u == "--") != (v == "--"):
+            return False
+        if u != "--" and abs(int(u) - int(v)) > tol:
+            return False
+    return True
+
+
 def agree(c):
+    if c.stream == "C16.rd":
+        return _rd_norm(c.impl_out) == _rd_norm(c.model_out)
+    if c.stream in ("C16.q1", "C16.q2"):
+        return _q_close(c.impl_out, c.model_out)
     return c.impl_out == c.model_out
 
 
@@ -727,6 +1259,8 @@ def take(a, pos, drop):
 
 def oracle(c):
     p = c.payload
+    if p.get("kind") == "q":
+        return oracle_q(c)
     if str(c.impl_out).startswith("raised"):
         return "implementation raised: " + c.impl_out + " " + str(c.extra)[-300:]
     well_formed = all(wf(t, n) for t, n in zip(p["t"], p["n"]))
@@ -784,6 +1318,22 @@ def oracle(c):
         want_tpi = sorted((int(d), list(t)) for d, t in zip(p["pos"], p["t"]))
         if obs["_tpi"] != want_tpi:
             return f"file: tie point indices read as {obs['_tpi']}, written {want_tpi}"
+    if "_rd" in obs:
+        # the reader's hand-over, stated from the way the file was written
+        h = obs["_rd"]
+        if isinstance(h, Raised):
+            return f"file: hand-over not readable: {h.enum} {h.text}"
+        target = p["observe"]
+        want = dict(
+            shape=list(ushape) + ([2 * nsub] if target == "bounds" else []),
+            tpi=sorted((int(d), f"idx{k}") for k, d in enumerate(p["pos"])),
+            pd=[("w", [int(d) for d in w_stored(p)[1]])] if p.get("w") else [],
+            ci=["c16"] + (["c16b"] if p.get("second_coord") else []),
+            name=p["m"],
+        )
+        for k, v in want.items():
+            if h[k] != v:
+                return f"file: reader hand-over {k} is {h[k]}, the dataset says {v}"
     return None
 
 
@@ -808,20 +1358,28 @@ def _parsed_kind(t, n, data_like):
 def w_dims_permuted(p):
     """quadratic `w` spanning every tie point dimension, stored in another dimension order."""
     w = p.get("w")
-    if not w or len(w["span"]) != len(p["extra"]) or not p["extra"]:
+    if not w or w.get("nosub") or len(w["span"]) != len(p["extra"]) or not p["extra"]:
         return False
-    others = [d for d in range(len(p["extra"]) + 1) if d != p["pos"][0]]
-    tp_dims = [others[e] for e in w["span"]] + [p["pos"][0]]
-    dims = [tp_dims[o] for o in w["order"]]
+    dims = list(w_stored(p)[1])
     return dims != sorted(dims)
+
+
+def w_without_subarea_dimension(p):
+    """quadratic `w` that does not span the interpolation subarea dimension, two or more subareas."""
+    w = p.get("w")
+    return bool(w and w.get("nosub") and n_subareas(p["t"][0]) >= 2)
 
 
 def classify(c):
     p = c.payload
+    if p.get("kind") == "q":
+        return classify_q(c)
     f = str(c.oracle_fail or "")
     ix = p["ix"]
     data_like = p["recv"] != "array"
     if not f.startswith("subspace"):
+        if w_without_subarea_dimension(p) and "ValueError" in f:
+            return "interpolation-parameter-without-subarea-dimension"
         if w_dims_permuted(p):
             return "interpolation-parameter-dimensions-permuted"
         if p.get("tp_dtype") in ("i1", "u1", "i2"):
@@ -856,6 +1414,8 @@ def shrink(c, run):
     if _shrinks[0] > 5:
         return None
     best = c
+    if c.payload.get("kind") == "q":
+        return None
     for change in (dict(precision="64"), dict(tp_dtype="f8")):
         q = dict(best.payload)
         q.update(change)
